@@ -1,6 +1,7 @@
 package main
 
 import (
+	"os"
 	"go/token"
 	"go/types"
 	"sort"
@@ -558,4 +559,86 @@ func guardedByJustValidate(fn *ssa.Function, in ssa.Instruction) bool {
 		}
 	}
 	return false
+}
+
+// selectedByJustValidate: some value v is computed from is a merge whose incoming alternatives are told apart by a
+// test of the justValidate parameter (data dependence, as opposed to the control dependence handled above).
+func selectedByJustValidate(fn *ssa.Function, v ssa.Value) (string, bool) {
+	isJV := func(x ssa.Value) bool {
+		pr, ok := x.(*ssa.Parameter)
+		return ok && pr.Name() == "justValidate"
+	}
+	seen := map[ssa.Value]bool{}
+	var hit string
+	var walk func(v ssa.Value, d int) bool
+	walk = func(v ssa.Value, d int) bool {
+		if v == nil || seen[v] || d > 40 {
+			return false
+		}
+		seen[v] = true
+		if isJV(v) {
+			hit = "justValidate"
+			return true
+		}
+		if ph, ok := v.(*ssa.Phi); ok {
+			// per distinct incoming value: the justValidate tests that hold on EVERY way the value arrives
+			byVal := map[ssa.Value]map[string]bool{}
+			for k, e := range ph.Edges {
+				set := map[string]bool{}
+				for _, g := range phiEdgeGuards(fn, ph, k) {
+					if derives(g.Cond, isJV, flowOpts{}) {
+						set[sprintf("%s/%v", g.Cond.Name(), g.Pos)] = true
+					}
+				}
+				if prev, ok := byVal[e]; ok {
+					for key := range prev {
+						if !set[key] {
+							delete(prev, key)
+						}
+					}
+				} else {
+					byVal[e] = set
+				}
+			}
+			var first map[string]bool
+			for _, set := range byVal {
+				if first == nil {
+					first = set
+					continue
+				}
+				same := len(set) == len(first)
+				for key := range set {
+					if !first[key] {
+						same = false
+					}
+				}
+				if !same {
+					if os.Getenv("VERIF_DEBUG") != "" {
+						for v, st := range byVal {
+							println("DEBUG phi", ph.Name(), "val", v.Name(), "set", len(st))
+						}
+					}
+					hit = "φ " + ph.Comment
+					return true
+				}
+			}
+		}
+		in, ok := v.(ssa.Instruction)
+		if !ok {
+			return false
+		}
+		if c, isCall := v.(*ssa.Call); isCall {
+			if n := calleeName(&c.Call); n != "builtin.len" && n != "builtin.cap" {
+				return false
+			}
+		}
+		for _, op := range in.Operands(nil) {
+			if *op != nil && walk(*op, d+1) {
+				return true
+			}
+		}
+		return false
+	}
+	ok := walk(v, 0)
+	return hit, ok
 }
